@@ -80,7 +80,10 @@ def st_case(draw):
         if kind in ('intstr', 'padstr', 'int', 'bigint') and draw(st.integers(0, 2)) == 0:
             # the lower-case builtins keep their meaning inside an aggregate argument (several arguments / an iterable)
             x = 'int(%s)' % f['py']
-            return qgen.mk(draw(st.sampled_from(['sum([%s, 1])', 'max(%s, 3)', 'min([%s, 5])', 'sum((%s, NR))', 'max([%s])'])) % x, None, 'int'), 'int'
+            return qgen.mk(draw(st.sampled_from(['sum([%s, 1])', 'max(%s, 3)', 'min([%s, 5])', 'sum((%s, NR))', 'max([%s])',
+                                                 # one argument that is an iterable of another kind: generator, map, range, set, dict view, iterator
+                                                 'max(v for v in (%s, 1))', 'min(map(abs, [%s, 7]))', 'max(range(abs(%s) %% 5 + 1))', 'sum(x for x in [%s, 2])', 'min(iter([%s, 9]))',
+                                                 'max({%s: 1}.keys())', 'max({%s, 0})', 'min(frozenset([%s, 4]))', 'max(sorted([%s, 3]))', 'min(v for v in [%s])'])) % x, None, 'int'), 'int'
         return f, kind
 
     group = None
@@ -132,7 +135,8 @@ def st_case(draw):
         elif k == 12:
             arg, kind = num_arg()
             if kind in ('int', 'bigint'):
-                it = {'k': 'expr', 'e': qgen.mk(draw(st.sampled_from(['max(%s, 5)', 'min(%s, 0, 7)', 'sum([%s, 1])', 'max([%s, 2])', 'min((%s, 3), key=lambda t: -t)'])) % arg['py'], None, 'int')}
+                it = {'k': 'expr', 'e': qgen.mk(draw(st.sampled_from(['max(%s, 5)', 'min(%s, 0, 7)', 'sum([%s, 1])', 'max([%s, 2])', 'min((%s, 3), key=lambda t: -t)',
+                                                                      'max(v for v in (%s, 5))', 'min(map(abs, [%s, 7]))', 'max(range(abs(%s) %% 5 + 1))', 'min(iter([%s, 9]))', 'max({%s, 0})'])) % arg['py'], None, 'int')}
             else:
                 it = {'k': 'expr', 'e': qgen.mk("max(len(%s), 1)" % fld(0)['py'], None, 'int')}
         else:
